@@ -116,15 +116,19 @@ func specWFQWeight(q *weightedFairQueueingPendingQueuePolicy, sid uint16) float6
 //@ func roundRobinPendingQueuePolicy.Push
 //@   requires rrInv(q)
 //@   requires#real-chunk typeIs(chunk, (*chunkPayloadData)(nil)) && chunk.chunkPayloadData() != nil
-//@   ensures{C17} rrInv(q)
-//@   ensures#idle-stream-joins-the-back-of-the-round{C17} old(q.streamQueues[chunk.StreamIdentifier()] == nil || len(q.streamQueues[chunk.StreamIdentifier()].queue) == 0) ==>
+//@   ensures#idle-stream-joins-the-back-of-the-round{C17,LEMMA} old(q.streamQueues[chunk.StreamIdentifier()] == nil || len(q.streamQueues[chunk.StreamIdentifier()].queue) == 0) ==>
 //@      len(q.streamOrder) == old(len(q.streamOrder))+1 && q.streamOrder[old(len(q.streamOrder))] == chunk.StreamIdentifier()
-//@   ensures#backlogged-stream-keeps-its-place{C17} !old(q.streamQueues[chunk.StreamIdentifier()] == nil || len(q.streamQueues[chunk.StreamIdentifier()].queue) == 0) ==>
+//@   ensures#backlogged-stream-keeps-its-place{C17,LEMMA} !old(q.streamQueues[chunk.StreamIdentifier()] == nil || len(q.streamQueues[chunk.StreamIdentifier()].queue) == 0) ==>
 //@      len(q.streamOrder) == old(len(q.streamOrder))
-//@   ensures#round-order-kept{C17} forall i int :: 0 <= i && i < old(len(q.streamOrder)) ==> q.streamOrder[i] == old(q.streamOrder[i])
+//@   ensures#round-order-kept{C17,LEMMA} forall i int :: 0 <= i && i < old(len(q.streamOrder)) ==> q.streamOrder[i] == old(q.streamOrder[i])
+//@   ensures#an-idle-stream-was-not-in-the-round{C17,LEMMA} old(q.streamQueues[chunk.StreamIdentifier()] == nil || len(q.streamQueues[chunk.StreamIdentifier()].queue) == 0) ==>
+//@      forall i int :: 0 <= i && i < old(len(q.streamOrder)) ==> old(q.streamOrder[i]) != chunk.StreamIdentifier()
+//@   ensures#streams-in-the-round-were-distinct{C17,LEMMA} forall i int, j int :: 0 <= i && i < j && j < old(len(q.streamOrder)) ==> old(q.streamOrder[i]) != old(q.streamOrder[j])
 //@   ensures#queued-behind-its-stream{C17} q.streamQueues[chunk.StreamIdentifier()] != nil &&
 //@      q.streamQueues[chunk.StreamIdentifier()].queue[len(q.streamQueues[chunk.StreamIdentifier()].queue)-1] == chunk.chunkPayloadData()
 //@   ensures#selection-untouched{C17} q.streamSelected == old(q.streamSelected) && q.selectedStream == old(q.selectedStream)
+//@   ensures{C17} rrInv(q)
+//@   proof rrInv.no-stream-twice-in-a-round uses idle-stream-joins-the-back-of-the-round backlogged-stream-keeps-its-place round-order-kept an-idle-stream-was-not-in-the-round streams-in-the-round-were-distinct
 //@   tags C17
 
 //@ func roundRobinPendingQueuePolicy.Peek
